@@ -62,7 +62,7 @@ def main():
         manifest = json.load(open(os.path.join(VERIF, 'MANIFEST.json')))
         claimed = {c['property_id'] for c in manifest['checks']}
         if prop in claimed:
-            env2 = dict(os.environ, VERIF_REPO=wt)
+            env2 = dict(os.environ, VERIF_REPO=wt, VERIF_EVIDENCE_DIR='/tmp/verif_seed_evidence')
             rc, out = sh(f'{PY} {VERIF}/check.py {prop} --tier {tier}', cwd=VERIF, env=env2, timeout=7200)
             viol = re.findall(r'^VIOLATION .*$', out, re.M)
             inconc = re.findall(r'^INCONCLUSIVE.*$', out, re.M)
